@@ -41,6 +41,9 @@ def gen_case(rng):
         ch += ["I"] * (3 if d < 3 else 1)
         if d > 0:
             ch += ["D"] * 3 + ["A"] * 4 + ["V"] * 1
+            # a free while a pair is still open is refused (an error message only): the histories of the theorems do not contain
+            # it, the correspondence does - whoever still holds the pool must not lose it
+            if rng.random() < 0.15: ch += ["F"] * 2
         else:
             ch += ["F"] * 2
         k = rng.choice(ch)
